@@ -40,16 +40,16 @@ theorem reachable_inv {cfg : Cfg} (hc : CfgOk cfg) (funds : List (Nat × Nat × 
 
 /-- **Placement takes exactly offer + fee reserve**: a successful limit / market order moves exactly
 `offer + ⌊offer·feeRate⌋` of the offer denom from the orderer to the pair's escrow, and records exactly that. -/
-theorem placement_takes_exactly {cfg : Cfg} {s s' : State} {app user pair : Nat} {typ : OType} {buy : Bool}
-    {msgOffer msgPrice price amount : Nat} {lifespan : Int} {ext : Bool}
-    (h : step cfg s (.order app user pair typ buy msgOffer msgPrice price amount lifespan ext) = some s') :
-    ∃ p ac o, s.pair? app pair = some p ∧ cfg.app? app = some ac ∧
-      s'.orders = s.orders ++ [o] ∧ o.app = app ∧ o.pair = pair ∧ o.owner = user ∧ o.od = sideIn p buy ∧
+theorem placement_takes_exactly {cfg : Cfg} {s s' : State} {app user pair : Nat} {typ : OType} {buy : Bool} {od dd : Denom}
+    {msgOffer msgPrice amount : Nat} {lifespan : Int}
+    (h : step cfg s (.order app user pair typ buy od dd msgOffer msgPrice amount lifespan) = some s') :
+    ∃ p ac o price, s.pair? app pair = some p ∧ cfg.app? app = some ac ∧ orderPrice ac p typ buy msgPrice = some price ∧
+      s'.orders = s.orders ++ [o] ∧ o.app = app ∧ o.pair = pair ∧ o.owner = user ∧ o.od = sideIn p buy ∧ o.od = od ∧
       o.offer = offerAmt buy price amount ∧ o.remaining = o.offer ∧ o.status = .notExecuted ∧ o.batch = p.curBatch ∧
       o.taken = o.offer + feeOf ac.feeRate o.offer ∧
       s.bal (.user user) o.od = s'.bal (.user user) o.od + o.taken ∧
       s'.bal (.pairEscrow app pair) o.od = s.bal (.pairEscrow app pair) o.od + o.taken :=
-  placeOrder_takes h
+  placeOrderMsg_takes h
 
 /-- **Taken = offer + fee reserve**, for every order in every reachable state (the reserve of a market-making order
 is zero: swap.go:377 escrows the offer coins only). -/
@@ -183,11 +183,13 @@ theorem mm_cancel_cancels_all {cfg : Cfg} (hsw : cfg.swapLookup = false) {s s' :
 /-- **MsgMMOrder (replace) cancels every previously indexed order** (repaired lookup): the orders of the new message
 are appended behind a state in which every order of the old index is ended. -/
 theorem mm_replace_cancels_all {cfg : Cfg} (hsw : cfg.swapLookup = false) {s s' : State} {app user pair : Nat}
-    {buys sells : List Tick} {lifespan : Int} {ext : Bool} {idx : MMIndex}
-    (hidx : findBy (isMM app pair user) s.mm = some idx) (h : step cfg s (.mmOrder app user pair buys sells lifespan ext) = some s') :
+    {maxSell minSell sellAmt maxBuy minBuy buyAmt : Nat} {lifespan : Int} {idx : MMIndex}
+    (hidx : findBy (isMM app pair user) s.mm = some idx)
+    (h : step cfg s (.mmOrder app user pair maxSell minSell sellAmt maxBuy minBuy buyAmt lifespan) = some s') :
     ∃ (s1 : State) (new : List Order), s'.orders = s1.orders ++ new ∧
       (∀ i ∈ idx.ids, ∀ o, s1.order? (app, pair, i) = some o → o.status.live = false) := by
   simp only [step] at h
+  obtain ⟨buys, sells, h⟩ := mmOrderMsg_core h
   unfold mmOrder at h
   split at h; · cases h
   split at h; · cases h
@@ -231,9 +233,8 @@ def opsD4 : List Op :=
     .createPair 2 0 (.coin 1) (.coin 2) true,
     .createPair 1 0 (.coin 1) (.coin 2) true,
     .createPair 1 0 (.coin 2) (.coin 3) true,
-    .mmOrder 2 1 1 [{ offer := 900000, price := 900000000000000000, amount := 1000000 }]
-                   [{ offer := 1000000, price := 1100000000000000000, amount := 1000000 }] 3600 true,
-    .order 1 2 2 .limit false 2000000 1000000000000000000 1000000000000000000 1000000 3600 true,
+    .mmOrder 2 1 1 1100000000000000000 1100000000000000000 1000000 900000000000000000 900000000000000000 1000000 3600,
+    .order 1 2 2 .limit false (.coin 2) (.coin 3) 2000000 1000000000000000000 1000000 3600,
     .endBlock 1 [] [] [], .endBlock 2 [] [] [],
     .block 2 105,
     .cancelMM 2 1 1 ]
@@ -245,7 +246,7 @@ theorem mm_cancel_cancels_all_counterexample :
     s.mm = [] ∧
     (s.orders.filter (fun o => o.app == 2 && o.pair == 1)).map (fun o => (o.id, o.status)) = [(1, .notMatched), (2, .notMatched)] ∧
     (s.orders.filter (fun o => o.app == 1 && o.pair == 2)).map (fun o => (o.id, o.owner, o.status)) = [(1, 2, .canceled)] := by
-  decide
+  decide +kernel
 
 /-- the same history with the repaired lookup: both orders cancelled, the stranger's order untouched -/
 example :
@@ -253,7 +254,7 @@ example :
     s.mm = [] ∧
     (s.orders.filter (fun o => o.app == 2 && o.pair == 1)).map (fun o => (o.id, o.status)) = [(1, .canceled), (2, .canceled)] ∧
     (s.orders.filter (fun o => o.app == 1 && o.pair == 2)).map (fun o => (o.id, o.owner, o.status)) = [(1, 2, .notMatched)] := by
-  decide
+  decide +kernel
 
 /-- two pairs of one app; user 1 has an older sell order in pair 2 and a fresh one in pair 1; cancel-all (no pair named) ends
 the older one although a current-batch order of a LOWER pair id comes first in the owner's index -/
@@ -261,14 +262,14 @@ def opsCancelAll : List Op :=
   [ .block 1 100,
     .createPair 1 0 (.coin 1) (.coin 2) true,
     .createPair 1 0 (.coin 2) (.coin 3) true,
-    .order 1 1 2 .limit false 2000000 1000000000000000000 1000000000000000000 1000000 3600 true,
+    .order 1 1 2 .limit false (.coin 2) (.coin 3) 2000000 1000000000000000000 1000000 3600,
     .endBlock 1 [] [] [],
     .block 2 105,
-    .order 1 1 1 .limit false 2000000 1000000000000000000 1000000000000000000 1000000 3600 true,
+    .order 1 1 1 .limit false (.coin 1) (.coin 2) 2000000 1000000000000000000 1000000 3600,
     .cancelAll 1 1 [] ]
 
 example : ((after (cfgD4 false) fundsD4 opsCancelAll).orders.map fun o => (o.pair, o.id, o.status)) =
-    [(2, 1, .canceled), (1, 1, .notExecuted)] := by decide
+    [(2, 1, .canceled), (1, 1, .notExecuted)] := by decide +kernel
 
 /-! ### Non-vacuity -/
 
@@ -281,8 +282,8 @@ theorem cfgD4_ok (b : Bool) : CfgOk (cfgD4 b) := by
 def opsLife : List Op :=
   [ .block 1 100,
     .createPair 1 0 (.coin 1) (.coin 2) true,
-    .order 1 1 1 .limit false 2000000 1000000000000000000 1000000000000000000 1000000 50 true,   -- sell 1 000 000, fee 3000
-    .order 1 2 1 .limit true 2000000 1000000000000000000 1000000000000000000 400000 3600 true,   -- buy 400 000, fee 1200
+    .order 1 1 1 .limit false (.coin 1) (.coin 2) 2000000 1000000000000000000 1000000 50,   -- sell 1 000 000, fee 3000
+    .order 1 2 1 .limit true (.coin 2) (.coin 1) 2000000 1000000000000000000 400000 3600,   -- buy 400 000, fee 1200
     .endBlock 1 [{ pair := 1, fills := [{ id := 1, buy := false, paid := 400000, recv := 400000, matched := 400000 },
                                         { id := 2, buy := true, paid := 400000, recv := 400000, matched := 400000 }],
                    pools := [], dust := 0 }] [] [],
@@ -293,11 +294,11 @@ def opsLife : List Op :=
 buyer completed: refunded 0, forwarded 1200 -/
 example : ((after (cfgD4 false) fundsD4 opsLife).orders.map fun o => (o.id, o.status, o.taken, o.remaining, o.refunded, o.feeFwd)) =
     [(1, .canceled, 1003000, 600000, 601800, 1200), (2, .completed, 401200, 0, 0, 1200)] := by
-  decide
+  decide +kernel
 
 example : (after (cfgD4 false) fundsD4 opsLife).bal (.pairEscrow 1 1) (.coin 1) = 0 ∧
     (after (cfgD4 false) fundsD4 opsLife).bal (.swapFee 1 1) (.coin 1) = 1200 ∧
     (after (cfgD4 false) fundsD4 opsLife).bal (.user 1) (.coin 1) = 10000000 - 1003000 + 601800 := by
-  decide
+  decide +kernel
 
 end Comdex.C07
